@@ -877,9 +877,12 @@ orc_x86_insn_output_opcode (OrcCompiler *p, OrcX86Insn *xinsn)
         }
       }
       break;
+    case ORC_X86_INSN_TYPE_STACK:
+      /* push/pop encode the register in the opcode byte; r8-r15 need REX.B */
+      orc_x86_emit_rex (p, 0, 0, 0, xinsn->dest);
+      break;
     case ORC_X86_INSN_TYPE_LABEL:
     case ORC_X86_INSN_TYPE_BRANCH:
-    case ORC_X86_INSN_TYPE_STACK:
       break;
     case ORC_X86_INSN_TYPE_IMM8_SSEM_AVX:
     case ORC_X86_INSN_TYPE_IMM8_AVX_SSEM:
